@@ -225,8 +225,9 @@ class AddressRange(collections.namedtuple(
                 return address
 
             elif not address.sheet:
-                start = AddressCell(address.start.coordinate, sheet=sheet)
-                end = AddressCell(address.end.coordinate, sheet=sheet)
+                # not from the coordinate, which for A:A or 1:1 is 'A' or '1'
+                start = AddressCell(address.start, sheet=sheet)
+                end = AddressCell(address.end, sheet=sheet)
 
             else:
                 raise ValueError(f"Mismatched sheets '{address}' and '{sheet}'")
